@@ -53,7 +53,7 @@ var (
 	SigmaStr = syms("'", "\"", "`", "\\", "n", "x", "u", "U", "0", "3", "7", "8", "a", "r", "b", "\n")
 	SigmaCmt = syms("#", "-", "/", "*", "\n", "a", "'", ";", " ", "\"")
 	SigmaOp  = syms("<", ">", "=", "!", "|", "-", "+", "@", ".", "a", "1", "(", "&", "^")
-	SigmaUni = syms("\u00a0", "\u3000", "\u0085", "a", " ", "\xff", "\xc2", "\n", "\f", "\v")
+	SigmaUni = syms("\u00a0", "\u3000", "\u0085", "a", " ", "\xff", "\xc2", "\n", "\f", "\v", "\xa0", "\x85")
 	// SigmaSplit for C12
 	SigmaSplit = syms(";", "'", "\"", "`", "-", "/", "*", "#", "\n", " ", "a", "\\")
 )
